@@ -384,6 +384,42 @@ def run(report, index, tier):
                  'GroupAsUnaryExprMinus %r' % v, 'literal -%r' % v,
                  '-%r is folded to %r' % (v, got),
                  where='unparsers/extractor.py:GroupAsUnaryExprMinus')
+    # the token handler hands the folded value on unchanged (type and
+    # value): a negative literal reaches it folded by the unary minus
+    the = XS.ext.functions.get('token_handler_extractor')
+    if the is None:
+        raise AnalysisError('extractor.token_handler_extractor vanished')
+    drv = ast.parse(
+        'def __drv__(v, node):\n'
+        '    a = list(token_handler_extractor(None, None, node, '
+        'FoldedFragment(v, Number)))\n'
+        '    b = list(token_handler_extractor(None, None, node, v))\n'
+        '    return a, b\n').body[0]
+    for v in (-5, 0, 2 ** 53 - 1, -(2 ** 53), -(2 ** 53 + 1), 2 ** 53 + 1,
+              -9007199254740993, 10 ** 30, -(10 ** 30), 2.5, -0.5, 1e300):
+        ev = XS.evaluator()
+        ev.iter_hook = lambda o: [o.value, o.folded_type]
+        orig_sub = ev.is_subclass
+        ev.is_subclass = lambda c, b, orig_sub=orig_sub: c == b or \
+            orig_sub(c, b)
+        ev.functions['ExtractedFragment'] = lambda val, nd, ty: (
+            'EF', val, ty)
+        ev.functions['list'] = list
+        try:
+            ret, _ = ev.call(drv, [v, Obj('Number')])
+            vals = [x[1] for part in ret for x in part
+                    if isinstance(x, tuple) and x and x[0] == 'EF']
+        except Raised as e:
+            vals = 'raises %s' % e.text
+        ok = isinstance(vals, list) and len(vals) == 2 and all(
+            x == v and type(x) is type(v) for x in vals)
+        r2.check(ok, 'token handler passes %r on' % v,
+                 'token_handler_extractor with the (folded) number %r' % v,
+                 'yields the values %r; expected %r (a %s) both folded and '
+                 'plain: the extracted number differs from the literal' % (
+                     vals, v, type(v).__name__),
+                 where='unparsers/extractor.py:token_handler_extractor',
+                 witness='var a = %r;' % v)
     report.trusted_base += ['ES5 7.8.4 escape table', 'Python string '
                             'escape table', 'JSON number grammar (RFC '
                             '8259)', 'lexer automata']
